@@ -18,14 +18,14 @@ CFG = {
             "emoji x every cursor position x Alt+b, Alt+f, Ctrl+w, Ctrl+Left, Ctrl+Right, Alt+d; random sequences up to 200 ops. Kinds tfc/tic "
             "(19 code points: combining mark, ZWJ, VS16, regional indicators, emoji, Hangul jamo, skin tone, tab): every start of length <= 4 x "
             "every cursor position x 18 inserts typed one code point at a time and pasted (InsertStringAtCursor, one key event, paste bracket), "
-            "then letter, BackSpace, Left, Delete, Draw; random sequences over all code points. Distinct by the whole sequence.",
+            "then letter, BackSpace, Left, Delete, Draw; deletions that bring two parts of a grapheme together followed by cursor probes; random sequences over all code points. Distinct by the whole sequence.",
     "trusted_base": [
         "Key.Matches / Key.String (C09's subject) are evaluated by the real code in the harness; the model receives the 8 binding verdicts "
         "of HandleEvent in source order, resp. the msg.String() text",
         "the segmentation cl (uniseg / vaxis.Characters) is a parameter of the clustered models; the theorems hold for every cl meeting "
         "Spec.Editor.Segmentation (clusters concatenate to the text; the first i clusters re-segment to i clusters; appending never lowers the "
         "count). That uniseg meets the three laws is not proved; the driver's UAX #29 oracle clUax is compared with uniseg's clustering of the "
-        "widget's value on every op, widths of clusters come from vaxis.Characters per op",
+        "widget's value on every op, widths of clusters come from vaxis.Characters per op; the driver checks the three laws on every text it meets",
         "kinds tf/ti: Value is modelled as the list of its clusters; that alphabet never merges and every observed value is re-clustered "
         "with uniseg (an unknown cluster would fail the comparison)",
         "TextField.cursor is observed through Draw's Cursor.Col (exported API only); textinput's through CursorPosition(); drawn cursor and "
@@ -39,7 +39,7 @@ CFG = {
                   "together): textfield_refines(_clustered) (+ invariant n = count, cursor <= length), textfield_callbacks_exact(_clustered), "
                   "textfield_cursor_column(_clustered) (display width = total width of the characters a grapheme is drawn as, e.g. 8 for a tab); "
                   "textinput_refines(_clustered) (every Update/SetContent/Draw call returns - no index panic, no hang - equals the ideal operation, "
-                  "content stays the segmentation of its text), draw_terminates, textinput_cursor_column and textinput_cells_fit (while prompt + "
+                  "content stays the segmentation of its text), clustered_editor_merge_free_instance (applyC with the never-merging segmentation is apply), draw_terminates, textinput_cursor_column and textinput_cells_fit (while prompt + "
                   "text + scrolloff fit, whatever the old offset: the cells written are exactly the prompt then the text's graphemes - or the mask - "
                   "each at the column = display width before it, no truncator). Gen theorems: case labels of Update's switch, default-arm guards, "
                   "scroll-loop condition, scrolloff, the if-chain of HandleEvent, and (facts_*_bodies) for every modelled function all writes to "
@@ -50,6 +50,6 @@ CFG = {
                   "does NOT fit (scrolled view, truncators: modelled in drawCells/cursorLoop and compared cell by cell, no theorem). Modelled, not "
                   "verified: nothing in the editing functions; guards outside loops are tied by correspondence, not by Gen facts. Not modelled: "
                   "direct assignment to the public field TextField.Value, HideCursor, a tab typed into textinput (vaxis.Characters turns it into 8 "
-                  "blanks before the editor sees it). Stated in prose only: that applyC with cl = singletons is apply.",
+                  "blanks before the editor sees it).",
     "timeout": 1500,
 }
